@@ -889,7 +889,9 @@ ComponentPtr flattenComponent(const ComponentEntityPtr &parent, ComponentPtr &co
 
         // Note: adding a component to another one removes it from its current
         //       parent, so we always take the first one that is left.
+        std::vector<ComponentPtr> ownComponents;
         while (component->componentCount() > 0) {
+            ownComponents.push_back(component->component(0));
             importedComponentCopy->addComponent(component->component(0));
         }
 
@@ -949,6 +951,13 @@ ComponentPtr flattenComponent(const ComponentEntityPtr &parent, ComponentPtr &co
         // Apply the re-based equivalence map onto the modified model.
         applyEquivalenceMapToModel(rebasedMap, flatModel);
 
+        // The components that the importing model encapsulates in the import
+        // use the units of the importing model: they are set aside while the
+        // units of what is imported are transferred and, possibly, renamed.
+        for (const auto &ownComponent : ownComponents) {
+            importedComponentCopy->removeComponent(ownComponent);
+        }
+
         StringStringMap unitNamesToReplace;
         for (const auto &units : uniqueRequiredUnits) {
             // If the required units are imported units, we will resolve those units here.
@@ -989,6 +998,10 @@ ComponentPtr flattenComponent(const ComponentEntityPtr &parent, ComponentPtr &co
             }
             UnitsPtr targetUnits = flatModel->units(finalUnitsName);
             updateUnitsNameUsages(alias.first, finalUnitsName, importedComponentCopy, targetUnits);
+        }
+
+        for (const auto &ownComponent : ownComponents) {
+            importedComponentCopy->addComponent(ownComponent);
         }
     }
 
